@@ -33,7 +33,7 @@ def wellformed(rng, nbody=None):
     body = [b for b in body if not b.startswith('-----')] or ['']      # the empty text is one empty line
     head = ['-----BEGIN PGP SIGNED MESSAGE-----']
     if rng.random() < .7:
-        head.append('Hash: ' + rng.choice(['SHA512', 'SHA1', 'SHA256,MD5']))
+        head.append('Hash: ' + rng.choice(['SHA512', 'SHA1', 'SHA256,MD5', 'SHA1,RIPEMD160,SHA224,SHA256,SHA384,SHA512']))
     head.append('')
     text = nl.join(head + body + sig_block(rng, nl)) + rng.choice([nl, nl, ''])
     return text, nl.join(body), nl
@@ -116,14 +116,18 @@ def timing(ctx):
     out = {}
     sizes = [16, 32, 64, 128, 256, 512, 1024, 2048, 4096] if not ctx.quick() else [16, 32, 64, 128, 256, 512, 1024]
     for nl_name, nl in (('LF', '\n'), ('CRLF', '\r\n')):
-        for kind in ('wellformed', 'damaged-crc', 'damaged-end', 'many-headers'):
+        for kind in ('wellformed', 'damaged-crc', 'damaged-end', 'many-headers', 'long-hash'):
             prev = None
             for n in sizes:
                 body = ['line %d: some text here' % i for i in range(n)]
                 headers = ['Comment: a: b %d' % i for i in range(n)] if kind == 'many-headers' else []
                 sig = ['-----BEGIN PGP SIGNATURE-----'] + headers + ['', 'AAAA', '=AAAA' if kind not in ('damaged-crc', 'many-headers') else '=AAA!',
                                                                   '-----END PGP SIGNATURE-----' if kind != 'damaged-end' else '-----END PGP SIGNATUR-----']
-                t = nl.join(['-----BEGIN PGP SIGNED MESSAGE-----', 'Hash: SHA1', ''] + body + sig) + nl
+                hashv = 'SHA1' if kind != 'long-hash' else ','.join(['SHA1', 'RIPEMD160', 'SHA224', 'SHA256'][i % 4] for i in range(max(2, n // 8)))
+                if kind == 'long-hash':
+                    body = body[:8]
+                    sig = sig[:-2] + sig[-1:]      # no CRC line: the signature block does not match
+                t = nl.join(['-----BEGIN PGP SIGNED MESSAGE-----', 'Hash: ' + hashv, ''] + body + sig) + nl
                 if kind == 'damaged-end':
                     t += '-----END PGP SIGNATURE-----'
                 t0 = time.time()
